@@ -162,6 +162,20 @@ def check_C10(ctx):
     res = ctx.run(cs)
     ctx.exhaustive = True
     ctx.compare(cs.cases, res, ['verdict', 'err'], scope=accepted)
+    # a value of the caller that adds the key `added` to the caller's map when it is printed (by `x eq "abc"`): a presence / null test
+    # evaluated AFTER that comparison sees the key, one evaluated before does not (left to right; no model counterpart: the expected
+    # verdicts are written out here)
+    cs_mut = CaseSet()
+    table_ = [('(added pr or x eq "abc") and added pr', '1'), ('added pr or (x eq "abc" and added pr)', '1'), ('not (added pr) and x eq "abc" and added pr', '1'), ('added eq null and x eq "abc" and added ne null', '1'),
+              ('added eq null and x eq "abc" and added eq null', '0'), ('added pr and x eq "abc" and added pr', '0'), ('x eq "abc" and added pr', '1'), ('added pr or x eq "zzz" or added pr', '1'), ('x eq "abc" and not (added eq null)', '1'),
+              ('added ne null or (x co "b" and added ne null and added eq 1)', '1')]
+    for (t_, want_) in table_:
+        cs_mut.eval(t_, obj({'x': ('strmut', b'abc'), 'k': I(1)}), 'self-changing-object', want=want_)
+    res_mut = ctx.run(cs_mut, label='mut', sides=('impl',), nshards=1)
+    for c in cs_mut.cases:
+        io = res_mut.impl.get(c.id)
+        if io and (io.get('verdict') != c.meta['want'] or io.get('err') != 'none'):
+            ctx.violation('presence / null tests around a comparison that makes a value of the caller add the key `added`: verdict %s/%s, left-to-right evaluation gives %s' % (io.get('verdict'), io.get('err'), c.meta['want']), [c], impl=io)
     # the proved model is the specification here: a disagreement on an in-scope input is a failing input
     for (c, f, i, m) in ctx.mismatches:
         ctx.violation('presence/null/bool test: implementation %s=%s, specification %s' % (f, i, m), [c])
